@@ -376,6 +376,12 @@ def check_powi(s, n, tok, out):
     t = xv ** n
     if not (min_normal(s) <= abs(t) <= max_finite(s)):
         return None  # the power is not a normal number of the format
+    bound0 = 1 + Fraction(n, 4)
+    if abs(t) > max_finite(s) - bound0 * ulp_max(s):
+        # overflow regime: the exact power is within the allowed error of the largest finite value;
+        # infinity or a value within the bound are both accepted (which one is C02's business)
+        if v["cat"] == "I" and v["sign"] == (1 if t < 0 else 0):
+            return None
     if v["cat"] != "N":
         return "power is a normal number but the result is not finite non-zero"
     err = abs(val_of(v) - t) / ulp_of(v)
